@@ -208,6 +208,9 @@ def run(ck):
     # F4/F5 on curve and process metrics
     check_metrics(ck, repo)
     ck.analysed["call_sites"] = n_sites
+    from ..purity import purity
+    purity(ck, repo, [repo.find_function(x) for x in simple] + process_functions(repo) + [repo.find_function("Pervaporation.non_ideal_diffusion_curve"),
+                                                                                       repo.find_function("DiffusionCurve.__attrs_post_init__")])
     ck.floor("call sites on the configuration path", n_sites, 40)
     ck.exhaustive = True
     ck.assume("the solver is a function of its bound arguments only (purity: C20), so equal bindings give equal fluxes at every entry point")
